@@ -95,6 +95,10 @@ pub struct NetCfg {
     /// slow worker task: a send_to made by a task of the node that never calls recv_from (i.e. not
     /// the event loop: the bootstrap worker) returns late - the datagram has left, the caller gets
     /// the CPU back only up to worker_stall_max_ms later. Stateless like yield_ppm.
+    /// a real node's send of a RESPONSE or ERROR datagram (a reply to somebody's query) fails with
+    /// ENETUNREACH; its own queries are not affected. Stateless like yield_ppm.
+    #[serde(default)]
+    pub reply_send_err_ppm: u32,
     #[serde(default)]
     pub worker_stall_ppm: u32,
     #[serde(default)]
@@ -367,6 +371,14 @@ impl NetInner {
                 let code = [101, 1, 11][(self.roll(&src, &dst, ord, 10) % 3) as usize];
                 err_code = Some(code);
                 self.fired.push(ExplicitFault { src, dst, ord, kind: FaultKind::SendErr { code } });
+            }
+            if err_code.is_none()
+                && self.cfg.reply_send_err_ppm > 0
+                && self.roll(&src, &dst, ord, 26) % PPM < self.cfg.reply_send_err_ppm as u64
+                && crate::krpc::Msg::parse(&bytes).map(|m| !m.is_query()).unwrap_or(false)
+            {
+                err_code = Some(101);
+                self.bump("fault_reply_send_err");
             }
             if let Some(mode) = self.outage(now, &src).cloned() {
                 match mode {
